@@ -4,6 +4,7 @@ import (
 	"bytes"
 	"fmt"
 	"math/rand"
+	"os"
 	"runtime"
 	"sort"
 
@@ -11,6 +12,8 @@ import (
 	"github.com/ethereum/go-ethereum/core/rawdb"
 	"github.com/ethereum/go-ethereum/core/types"
 	"github.com/ethereum/go-ethereum/crypto"
+	"github.com/ethereum/go-ethereum/ethdb"
+	"github.com/ethereum/go-ethereum/ethdb/pebble"
 	"github.com/ethereum/go-ethereum/triedb"
 	"github.com/holiman/uint256"
 	tl "verif/harness/tracelib"
@@ -115,7 +118,25 @@ func randomFlat(r *rand.Rand, naccts int) *flat {
 	return f
 }
 
-func runRecord(tracePath, scheme string, seed int64, n, big int, sum *tl.Summary) {
+// newDB opens the database a generation runs on: the memory store, or a pebble store in the
+// working directory (iterators there are real snapshots, so the reopen-after-flush logic matters).
+func newDB(backend string, idx int) (ethdb.Database, func()) {
+	if backend != "pebble" {
+		return rawdb.NewMemoryDatabase(), func() {}
+	}
+	dir, err := os.MkdirTemp(".", fmt.Sprintf("c11-pebble-%d-", idx))
+	if err != nil {
+		tl.Fatal("mkdir: %v", err)
+	}
+	kv, err := pebble.New(dir, 16, 16, "", false)
+	if err != nil {
+		tl.Fatal("pebble: %v", err)
+	}
+	db := rawdb.NewDatabase(kv)
+	return db, func() { db.Close(); os.RemoveAll(dir) }
+}
+
+func runRecord(tracePath, scheme, backend string, seed int64, n, big int, sum *tl.Summary) {
 	r := tl.Rand(seed)
 	tr := tl.NewTrace(tracePath)
 	defer tr.Close()
@@ -147,7 +168,11 @@ func runRecord(tracePath, scheme string, seed int64, n, big int, sum *tl.Summary
 		if r.Intn(5) == 0 {
 			want, expect = "other", randHash(r)
 		}
-		db := rawdb.NewMemoryDatabase()
+		bk := "memory"
+		if t < big || t%4 == 1 {
+			bk = backend
+		}
+		db, closeDB := newDB(bk, t)
 		f.write(db)
 		stats, err := triedb.GenerateTrie(db, scheme, expect, nil)
 		o := observe(db, scheme)
@@ -156,7 +181,8 @@ func runRecord(tracePath, scheme string, seed int64, n, big int, sum *tl.Summary
 		sum.Count(want)
 		if want == "correct" {
 			if msg := judge(f, can, o, scheme, db); msg != "" {
-				sum.Violate("triedb.GenerateTrie ("+scheme+" scheme, random flat state): "+msg, tl.M{"scheme": scheme, "seed": seed, "index": t, "accounts": len(f.accounts)})
+				sum.Violate("triedb.GenerateTrie ("+scheme+" scheme, random flat state): "+msg, tl.M{"scheme": scheme, "seed": seed, "index": t, "accounts": len(f.accounts), "backend": bk})
+				closeDB()
 				return
 			}
 		}
@@ -206,6 +232,8 @@ func runRecord(tracePath, scheme string, seed int64, n, big int, sum *tl.Summary
 		ev["staleAfter"] = ranks(rank, staleAfter)
 		ev["storageAfter"] = pairs(rank, srank, o.storage)
 		tr.Emit(ev)
+		closeDB()
+		sum.Count("backend-" + bk)
 		sum.Traces++
 		sum.Distinct++
 		if t < 3 {
